@@ -133,7 +133,11 @@ def run(ctx, R, tier):
     from ..report import Rules
     from . import c07
     R7 = Rules("C07")
-    c07.run(ctx, R7, tier)
+    try:
+        c07.run(ctx, R7, tier)
+    except AnalysisError as _shared_x:
+        # the other property's own anchors are gone on this tree: its check reports that; what it produced before is still shared
+        R.note("obligations shared from C07 are incomplete on this tree: %s" % _shared_x)
     for o in R7.obs:
         if o.rule == "C07-R5":
             R.add("C11-R3", o.key.split("|", 1)[1], o.desc, o.ok, o.loc, o.detail)
@@ -149,7 +153,11 @@ def run(ctx, R, tier):
     # ---------------------------------------------------------------- R6 (shared with C01-R9)
     from . import c01
     R1 = Rules("C01")
-    c01.run(ctx, R1, tier)
+    try:
+        c01.run(ctx, R1, tier)
+    except AnalysisError as _shared_x:
+        # the other property's own anchors are gone on this tree: its check reports that; what it produced before is still shared
+        R.note("obligations shared from C01 are incomplete on this tree: %s" % _shared_x)
     for o in R1.obs:
         if o.rule == "C01-R9":
             R.add("C11-R6", o.key.split("|", 1)[1], o.desc + " (a batch request carries kwargs=None: it must work with every serializer)", o.ok, o.loc, o.detail)
